@@ -973,16 +973,22 @@ impl Worker {
 
 	/// One monitored `verify` call.
 	fn verify(&self, ctx: &dyn PoWContext, proof: &Proof, class: &str) -> Outcome {
+		self.guarded(&proof.nonces, class, || ctx.verify(proof).is_ok())
+	}
+
+	/// Monitored call (hang + panic monitor). The slot's case info must describe an equivalent direct
+	/// verify call so that a hang can be reproduced.
+	fn guarded(&self, nonces: &[u64], class: &str, f: impl FnOnce() -> bool) -> Outcome {
 		{
 			let mut i = self.slot.info.lock().unwrap();
 			i.nonces.clear();
-			i.nonces.extend_from_slice(&proof.nonces);
+			i.nonces.extend_from_slice(nonces);
 			if i.class != class {
 				i.class = class.to_string();
 			}
 		}
 		self.slot.busy_since.store(self.shared.now_ms(), Ordering::SeqCst);
-		let r = monitor::catch(|| ctx.verify(proof).is_ok());
+		let r = monitor::catch(f);
 		self.slot.busy_since.store(0, Ordering::SeqCst);
 		if self.slot.dead.load(Ordering::SeqCst) {
 			// declared hung by the monitor but came back: this thread has been replaced, retire it
@@ -1677,8 +1683,20 @@ fn main() {
 		run.finish();
 	}
 
+	if on("solve") {
+		queue_solver(&shared);
+	}
 	if on("exh") {
 		queue_exhaustive(&shared);
+	}
+	if on("select") {
+		queue_selection(&shared);
+	}
+	if on("diff") {
+		queue_difficulty(&shared);
+	}
+	if on("ser") {
+		queue_ser(&shared);
 	}
 
 	let threads = 16;
@@ -1701,6 +1719,16 @@ fn main() {
 }
 
 fn queue_exhaustive(shared: &Arc<Shared>) {
+	// thorough: every ascending 8-tuple of 32-edge graphs (10 518 300 per seed), split by the first two nonces
+	if shared.tier == Tier::Thorough && shared.scale >= 1.0 {
+		for v in VARIANTS {
+			shared.push(
+				Some(v),
+				format!("scan {} eb5", v.name()),
+				Box::new(move |w| exhaustive_scan_job(w, v, 5, 2, 1, true)),
+			);
+		}
+	}
 	for v in VARIANTS {
 		let (ww, wo) = (shared.n(24, 160), shared.n(24, 160));
 		shared.push(
@@ -1708,6 +1736,34 @@ fn queue_exhaustive(shared: &Arc<Shared>) {
 			format!("scan {} eb4", v.name()),
 			Box::new(move |w| exhaustive_scan_job(w, v, 4, ww, wo, false)),
 		);
+	}
+	// random ascending tuples of 32- and 64-edge graphs
+	let jobs = shared.n(6, 40);
+	let per = shared.n(20_000, 50_000);
+	for v in VARIANTS {
+		for eb in [5u8, 6] {
+			for j in 0..jobs {
+				let seed = shared.run.seed;
+				shared.push(
+					Some(v),
+					format!("sampled {} eb{} #{}", v.name(), eb, j),
+					Box::new(move |w| {
+						exhaustive_job(
+							w,
+							ExhSpec {
+								variant: v,
+								eb,
+								header: seed_header(seed, 0xA500 + v.idx() as u64 * 8 + eb as u64, j),
+								prefix: vec![],
+								sample: Some((per, seed ^ (j << 8) ^ eb as u64)),
+								solver_cycles: None,
+								with_mutations: false,
+							},
+						)
+					}),
+				);
+			}
+		}
 	}
 }
 
@@ -1762,9 +1818,1532 @@ fn replay(shared: &Arc<Shared>, path: &std::path::Path) {
 
 fn finish(shared: &Arc<Shared>) -> ! {
 	let run = shared.run;
-	run.set_rule("see source");
-	for (_, v) in shared.samples.lock().unwrap().iter().take(6) {
-		run.sample(v.clone());
+	run.set_rule(
+		"Differential against an independent reference (own siphash-2-4 / siphash-block / graph definitions / perfect-matching + union-find decider). \
+		 (a) exhaustive: every ascending 8-tuple of 16-edge graphs (12 870 per header) for header seeds chosen by the reference solver (half with, half without 8-cycles), \
+		 plus all pair swaps / duplicates / out-of-range / wrong-count variants of each accepted cycle and of some rejected tuples; thorough adds every 8-tuple of 32-edge graphs \
+		 (10 518 300 per header, 3 headers per variant); random ascending tuples of 32- and 64-edge graphs. \
+		 (b) reference solver (DFS over the junction relation) on graphs of 2^8..2^16 edges, proof sizes 8 and 42: honest cycles, repo find_cycles solutions (cuckatoo), \
+		 unions of two/three cycles with exactly L edges (disjoint, sharing one node, sharing a path), cycles of wrong length, open paths, cycles of the underlying \
+		 undirected graph that violate direction / node-pair port, ~130 mutations per honest cycle (one nonce +-1 / sibling / random, swaps, reversal, rotation, duplicates, \
+		 out of range incl. aliases nonce+2^edge_bits and huge values, wrong counts), same nonces under another header / header nonce / variant / edge_bits. \
+		 (c) create_pow_context and verify_size on all four chain types: published 42-cycle vectors (29..33 bits) at hard-fork boundary heights, headers mined by the reference solver \
+		 and their header-level near misses, random proofs at 7..62 edge bits. (d) to_difficulty / to_unscaled_difficulty called twice and compared with an own formula over \
+		 independently packed nonces. (e) Proof write == own packing, read(write(p)) == p, read->write of random canonical bytes, every non-zero padding pattern refused, \
+		 truncated and bad edge_bits refused, protocol versions 1-3. A case signature is (workload, variant, edge_bits, proof size, construction class, reference shape label with \
+		 degree profile, verdict); distinct_nontrivial counts distinct signatures. Every verify call runs under a hang monitor (3 s, reproduced in a fresh thread) and a panic monitor.",
+	);
+	run.assume("blake2b (reached through core::hash::HashWriter) is trusted base for key derivation and proof hashing");
+	run.assume("graphs of 2^29 and more edges are only exercised with published solutions and random proofs (no solver at that size)");
+	let scale = shared.scale * shared.tier.pick(1.0, 3.0);
+	let thr = |q: u64| ((q as f64 * scale).ceil() as u64).max(1);
+	let only = arg_value(&run.args, "--only");
+	if only.is_none() {
+		for v in VARIANTS {
+			let vn = v.name();
+			run.require(&format!("{}: valid proofs accepted by both", vn), run.counter(&format!("{}.valid_accepted", vn)), thr(60));
+			run.require(&format!("{}: invalid proofs rejected by both", vn), run.counter(&format!("{}.invalid_rejected", vn)), thr(300_000));
+			run.require(
+				&format!("{}: exhaustive 16-edge tuples", vn),
+				run.counter(&format!("exhaustive.{}.eb4.tuples", vn)),
+				thr(12_870 * 30),
+			);
+			run.require(
+				&format!("{}: honest 42-cycles accepted", vn),
+				run.counter(&format!("solver.{}.L42.honest_cycles_accepted", vn)),
+				thr(8),
+			);
+			run.require(
+				&format!("{}: exhaustive seeds with 8-cycles", vn),
+				run.counter(&format!("exhaustive.{}.seeds_with_cycle", vn)),
+				thr(10),
+			);
+		}
+		for (shape, min) in [
+			("disjoint_cycles", 100),
+			("figure_eight", 20),
+			("theta", 100),
+			("open_path", 500),
+			("und_cycle_bad_direction_or_port", 100),
+			("duplicate", 1000),
+			("unsorted", 3000),
+			("out_of_range", 3000),
+			("wrong_count", 2000),
+			("other", 100_000),
+		] {
+			run.require(
+				&format!("rejected near misses of shape {}", shape),
+				run.counter(&format!("shape.{}.rejected", shape)),
+				thr(min),
+			);
+		}
+		for (class, min) in [
+			("one_changed_plus1", 200),
+			("one_changed_minus1", 200),
+			("one_changed_sibling", 200),
+			("one_changed_random_sorted", 200),
+			("one_changed_random_unsorted", 200),
+			("swap_two", 500),
+			("duplicate", 200),
+			("out_of_range_last", 500),
+			("out_of_range_alias", 200),
+			("wrong_count_minus1", 200),
+			("wrong_count_plus1", 100),
+			("wrong_count_empty", 50),
+			("two_disjoint_cycles", 50),
+			("two_cycles_sharing_a_path", 20),
+			("cycle_of_wrong_length", 100),
+			("open_path", 100),
+			("cycle_ignoring_direction_or_port", 50),
+			("cycle_under_other_header", 100),
+			("cycle_under_other_header_nonce", 100),
+			("cycle_of_other_variant", 400),
+			("cycle_of_other_edge_bits", 100),
+		] {
+			run.require(
+				&format!("near-miss class {}", class),
+				run.counter(&format!("class.{}.invalid", class)),
+				thr(min),
+			);
+		}
+		for v in [Variant::Cuckaroo, Variant::Cuckarood, Variant::Cuckatoo] {
+			run.require(
+				&format!("selection: published {} vector accepted on Mainnet", v.name()),
+				run.counter(&format!("selection.Mainnet.{}.vector_accepted_under_scheduled_variant", v.name())),
+				1,
+			);
+		}
+		for v in [Variant::Cuckaroo, Variant::Cuckarood, Variant::Cuckaroom, Variant::Cuckarooz] {
+			run.require(
+				&format!("verify_size: mined {} header accepted on Mainnet", v.name()),
+				run.counter(&format!("verify_size.Mainnet.{}.mined_header_accepted", v.name())),
+				1,
+			);
+		}
+		run.require("verify_size: mined cuckatoo header accepted on UserTesting", run.counter("verify_size.UserTesting.cuckatoo.mined_header_accepted"), 1);
+		run.require("verify_size: mined cuckatoo header accepted on AutomatedTesting", run.counter("verify_size.AutomatedTesting.cuckatoo.mined_header_accepted"), 1);
+		run.require("reference: published vectors confirmed", run.counter("reference.published_vectors_confirmed"), 12);
+		run.require("difficulty: primary agree", run.counter("difficulty.primary.agree"), thr(10_000));
+		run.require("difficulty: secondary agree", run.counter("difficulty.secondary.agree"), thr(2_000));
+		run.require("ser: bit-exact round trips", run.counter("ser.roundtrip_exact"), thr(2_000));
+		run.require("ser: writer bytes equal reference packing", run.counter("ser.writer_bytes_equal_reference"), thr(2_000));
+		run.require("ser: non-zero padding refused", run.counter("ser.nonzero_padding_refused"), thr(5_000));
+		run.require("ser: bad edge_bits refused", run.counter("ser.bad_edge_bits_refused"), 27);
 	}
+	let samples = shared.samples.lock().unwrap();
+	let mut pushed = 0;
+	for prefix in ["exhaustive_", "honest42_", "near_miss", "selection", "difficulty", "ser_padding"] {
+		if let Some((_, v)) = samples.iter().find(|(k, _)| k.starts_with(prefix)) {
+			run.sample(v.clone());
+			pushed += 1;
+		}
+	}
+	if pushed == 0 {
+		for (_, v) in samples.iter().take(6) {
+			run.sample(v.clone());
+		}
+	}
+	drop(samples);
 	run.finish()
+}
+
+// =====================================================================================================
+// Workload B: reference solver + near misses on graphs of 2^8 .. 2^16 edges
+// =====================================================================================================
+
+/// A reference graph together with the context under test for the same (variant, size, header).
+struct Bench {
+	g: RefGraph,
+	ctx: Box<dyn PoWContext>,
+	l: usize,
+	chain: ChainTypes,
+	header: Vec<u8>,
+	hnonce: Option<u32>,
+}
+
+impl Bench {
+	fn new(variant: Variant, eb: u8, l: usize, chain: ChainTypes, header: &[u8], hnonce: Option<u32>, table: bool) -> Option<Bench> {
+		global::set_local_chain_type(chain);
+		let mut ctx = make_ctx(variant, eb, l).ok()?;
+		ctx.set_header_nonce(header.to_vec(), hnonce, false).ok()?;
+		Some(Bench {
+			g: RefGraph::new(variant, eb as u32, ref_keys(header, hnonce), table),
+			ctx,
+			l,
+			chain,
+			header: header.to_vec(),
+			hnonce,
+		})
+	}
+	fn activate(&self, w: &Worker) {
+		w.set_case_ctx(self.g.variant, self.g.edge_bits as u8, self.l, self.chain, &self.header, self.hnonce);
+	}
+	fn check(&self, w: &Worker, wl: &str, class: &str, nonces: &[u64], st: &mut Stats) -> (Analysis, bool) {
+		check_case(w, &self.g, &*self.ctx, self.l, wl, class, nonces, st)
+	}
+}
+
+fn sorted(mut v: Vec<u64>) -> Vec<u64> {
+	v.sort_unstable();
+	v
+}
+
+fn cycle_nodes(g: &RefGraph, c: &[u64]) -> Vec<u64> {
+	let mut n: Vec<u64> = c
+		.iter()
+		.flat_map(|e| [g.half(*e, 0).und, g.half(*e, 1).und])
+		.collect();
+	n.sort_unstable();
+	n.dedup();
+	n
+}
+
+fn count_common(a: &[u64], b: &[u64]) -> usize {
+	// both sorted
+	let (mut i, mut j, mut c) = (0, 0, 0);
+	while i < a.len() && j < b.len() {
+		if a[i] == b[j] {
+			c += 1;
+			i += 1;
+			j += 1;
+		} else if a[i] < b[j] {
+			i += 1;
+		} else {
+			j += 1;
+		}
+	}
+	c
+}
+
+/// Edge sets of exactly `l` edges that are unions of two or three cycles of the graph.
+fn combos_from_cycles(g: &RefGraph, cycles: &[Vec<u64>], l: usize) -> Vec<(&'static str, Vec<u64>)> {
+	let mut out = vec![];
+	let es: Vec<Vec<u64>> = cycles.iter().map(|c| sorted(c.clone())).collect();
+	let ns: Vec<Vec<u64>> = cycles.iter().map(|c| cycle_nodes(g, c)).collect();
+	let m = cycles.len().min(120);
+	for i in 0..m {
+		for j in i + 1..m {
+			let ce = count_common(&es[i], &es[j]);
+			if es[i].len() + es[j].len() - ce != l {
+				continue;
+			}
+			let cn = count_common(&ns[i], &ns[j]);
+			let mut u = es[i].clone();
+			u.extend_from_slice(&es[j]);
+			u.sort_unstable();
+			u.dedup();
+			let class = if cn == 0 {
+				"two_disjoint_cycles"
+			} else if ce == 0 && cn == 1 {
+				"two_cycles_sharing_one_node"
+			} else if ce == 0 {
+				"two_cycles_sharing_nodes"
+			} else {
+				"two_cycles_sharing_a_path"
+			};
+			out.push((class, u));
+			if out.len() > 40 {
+				return out;
+			}
+		}
+	}
+	let m = cycles.len().min(30);
+	for i in 0..m {
+		for j in i + 1..m {
+			for k in j + 1..m {
+				if es[i].len() + es[j].len() + es[k].len() != l {
+					continue;
+				}
+				if count_common(&ns[i], &ns[j]) + count_common(&ns[i], &ns[k]) + count_common(&ns[j], &ns[k]) != 0 {
+					continue;
+				}
+				let mut u = es[i].clone();
+				u.extend_from_slice(&es[j]);
+				u.extend_from_slice(&es[k]);
+				u.sort_unstable();
+				out.push(("three_disjoint_cycles", u));
+			}
+		}
+	}
+	out
+}
+
+/// Near misses of an honest cycle `s` (sorted). The reference labels each of them; the class names only
+/// say how they were built.
+fn near_misses(p: &mut Prng, s: &[u64], n_edges: u64) -> Vec<(&'static str, Vec<u64>)> {
+	let l = s.len();
+	let mut out: Vec<(&'static str, Vec<u64>)> = vec![];
+	let mut positions: Vec<usize> = (0..l).collect();
+	p.shuffle(&mut positions);
+	let pos: Vec<usize> = positions.iter().copied().take(8).collect();
+	for &i in &pos {
+		let mut m = s.to_vec();
+		m[i] = m[i].wrapping_add(1);
+		out.push(("one_changed_plus1", m));
+		let mut m = s.to_vec();
+		m[i] = m[i].wrapping_sub(1);
+		out.push(("one_changed_minus1", m));
+		let mut m = s.to_vec();
+		m[i] ^= 1;
+		out.push(("one_changed_sibling", sorted(m)));
+		let mut r = p.below(n_edges);
+		while s.contains(&r) {
+			r = p.below(n_edges);
+		}
+		let mut m = s.to_vec();
+		m[i] = r;
+		out.push(("one_changed_random_unsorted", m.clone()));
+		out.push(("one_changed_random_sorted", sorted(m)));
+	}
+	for k in 0..10 {
+		let (i, j) = if k == 0 {
+			(0, 1)
+		} else if k == 1 {
+			(l - 2, l - 1)
+		} else {
+			let i = p.usize_below(l);
+			let mut j = p.usize_below(l);
+			while j == i {
+				j = p.usize_below(l);
+			}
+			(i, j)
+		};
+		let mut m = s.to_vec();
+		m.swap(i, j);
+		out.push(("swap_two", m));
+	}
+	let mut m = s.to_vec();
+	m.reverse();
+	out.push(("reversed", m));
+	let mut m = s.to_vec();
+	m.rotate_left(1 + p.usize_below(l - 1));
+	out.push(("rotated", m));
+	for &i in pos.iter().take(6) {
+		let mut m = s.to_vec();
+		if i > 0 {
+			m[i] = m[i - 1];
+		} else {
+			m[0] = m[1];
+		}
+		out.push(("duplicate", m));
+	}
+	// out of range
+	let last = s[l - 1];
+	for v in [
+		last + n_edges,
+		last | n_edges,
+		n_edges,
+		n_edges + 1,
+		u64::MAX,
+		1 << 63,
+		(1u64 << 32) + last,
+		last + (n_edges << 1),
+	] {
+		let mut m = s.to_vec();
+		m[l - 1] = v;
+		out.push(("out_of_range_last", m));
+	}
+	for &i in pos.iter().take(4) {
+		let mut m = s.to_vec();
+		m[i] += n_edges;
+		out.push(("out_of_range_alias", m));
+	}
+	// wrong count
+	for i in [0, l / 2, l - 1] {
+		let mut m = s.to_vec();
+		m.remove(i);
+		out.push(("wrong_count_minus1", m));
+	}
+	let mut m = s.to_vec();
+	if last + 1 < n_edges {
+		m.push(last + 1 + p.below(n_edges - last - 1));
+	} else {
+		m.push(n_edges);
+	}
+	out.push(("wrong_count_plus1", m));
+	let mut m = s.to_vec();
+	m.push(n_edges + 5);
+	out.push(("wrong_count_plus1", m));
+	out.push(("wrong_count_empty", vec![]));
+	out.push(("wrong_count_single", vec![s[0]]));
+	let mut m = s.to_vec();
+	m.extend_from_slice(s);
+	out.push(("wrong_count_doubled", m));
+	out
+}
+
+struct SolveSpec {
+	variant: Variant,
+	l: usize,
+	eb: u8,
+	target_cycles: u64,
+	max_seeds: u64,
+	time_cap_s: f64,
+	loose_seeds: u64,
+	part: u64,
+}
+
+fn solve_job(w: &Worker, spec: SolveSpec) {
+	let v = spec.variant;
+	let l = spec.l;
+	let eb = spec.eb;
+	let vn = v.name();
+	let seed = w.run().seed;
+	let mut p = Prng::new(seed ^ fnv64(format!("solve{}{}{}p{}", vn, l, eb, spec.part).as_bytes()));
+	let t0 = Instant::now();
+	let mut st = Stats::default();
+	let mut honest = 0u64;
+	let mut seeds = 0u64;
+	let n_edges = 1u64 << eb;
+	let wl = "solver";
+	while honest < spec.target_cycles
+		&& seeds < spec.max_seeds
+		&& t0.elapsed().as_secs_f64() < spec.time_cap_s
+		&& !w.shared.out_of_time()
+	{
+		let header = seed_header(
+			seed,
+			0xB000 + (v.idx() as u64) * 4096 + (l as u64) * 64 + eb as u64,
+			spec.part * 10_000_000 + seeds,
+		);
+		let hnonce = if seeds % 2 == 0 { None } else { Some(p.next_u32()) };
+		let chain = if l == 8 {
+			ChainTypes::AutomatedTesting
+		} else if seeds % 4 < 2 {
+			ChainTypes::UserTesting
+		} else {
+			ChainTypes::Mainnet
+		};
+		seeds += 1;
+		let b = match Bench::new(v, eb, l, chain, &header, hnonce, true) {
+			Some(b) => b,
+			None => {
+				w.run().inconclusive(&format!("constructor refused {} eb={}", vn, eb));
+				return;
+			}
+		};
+		b.activate(w);
+		let adj = Adjacency::build(&b.g, JoinMode::Strict);
+		let (cycles, trunc) = find_cycles(&b.g, &adj, 1, l + 2, 3_000_000, 300, false, 0);
+		if trunc {
+			st.bump("solver.graphs_truncated", 1);
+		}
+		st.bump("solver.graphs_searched", 1);
+		// second source of honest proofs: the repository's cuckatoo solver
+		if v == Variant::Cuckatoo && cycles.iter().any(|c| c.len() == l) && eb <= 16 {
+			let hdr = header.clone();
+			let r = monitor::catch(|| {
+				let mut sctx = pow::new_cuckatoo_ctx(eb, l, 10).ok()?;
+				sctx.set_header_nonce(hdr, hnonce, true).ok()?;
+				sctx.find_cycles().ok()
+			});
+			if let Ok(Some(sols)) = r {
+				for sol in sols {
+					b.check(w, wl, "repo_find_cycles_solution", &sol.nonces, &mut st);
+				}
+			}
+		}
+		// unions of two / three cycles with exactly l edges
+		for (class, m) in combos_from_cycles(&b.g, &cycles, l) {
+			let (a, acc) = b.check(w, wl, class, &m, &mut st);
+			if class == "two_disjoint_cycles" && l == 42 {
+				w.shared.sample(
+					"near_miss_disjoint",
+					json!({"workload": "solver", "class": class, "variant": vn, "edge_bits": eb, "proof_size": l, "header_hex": hex(&header),
+						"header_nonce": hnonce, "nonces": m, "reference": a.shape.name(), "verify": if acc { "Ok" } else { "Err" }}),
+				);
+			}
+		}
+		// genuine cycles of the wrong length
+		for c in cycles.iter().filter(|c| c.len() != l && c.len() + 2 >= l).take(4) {
+			b.check(w, wl, "cycle_of_wrong_length", &sorted(c.clone()), &mut st);
+		}
+		// a shorter genuine cycle padded with random edges to the right count
+		for c in cycles.iter().filter(|c| c.len() < l && c.len() + 4 >= l).take(2) {
+			let mut m = c.clone();
+			while m.len() < l {
+				let r = p.below(n_edges);
+				if !m.contains(&r) {
+					m.push(r);
+				}
+			}
+			b.check(w, wl, "short_cycle_padded_with_random_edges", &sorted(m), &mut st);
+		}
+		// open simple paths of l edges
+		if seeds <= spec.loose_seeds {
+			let (paths, _) = find_cycles(&b.g, &adj, l, l, 200_000, 2, true, p.below(n_edges));
+			for c in paths {
+				b.check(w, wl, "open_path", &sorted(c), &mut st);
+			}
+			// cycles of the underlying undirected graph (direction / node-pair port ignored)
+			if v.directed() || v == Variant::Cuckatoo {
+				let ladj = Adjacency::build(&b.g, JoinMode::Loose);
+				let (lc, _) = find_cycles(&b.g, &ladj, l, l, 300_000, 3, false, p.below(n_edges));
+				for c in lc {
+					b.check(w, wl, "cycle_ignoring_direction_or_port", &sorted(c), &mut st);
+				}
+			}
+			// random ascending tuples
+			for _ in 0..20 {
+				let mut m: Vec<u64> = vec![];
+				while m.len() < l {
+					let r = p.below(n_edges);
+					if !m.contains(&r) {
+						m.push(r);
+					}
+				}
+				b.check(w, wl, "random_ascending_tuple", &sorted(m), &mut st);
+			}
+		}
+		for c in cycles.iter().filter(|c| c.len() == l) {
+			let s = sorted(c.clone());
+			let (a, acc) = b.check(w, wl, "honest_cycle", &s, &mut st);
+			if !a.valid {
+				w.run().inconclusive(&format!(
+					"reference self-check failed: solver cycle not accepted by the decider ({} eb={} L={})",
+					vn, eb, l
+				));
+				continue;
+			}
+			if acc {
+				honest += 1;
+				st.bump(&format!("solver.{}.L{}.honest_cycles_accepted", vn, l), 1);
+				st.bump(&format!("solver.{}.L{}.eb{}.honest_cycles_accepted", vn, l, eb), 1);
+				if l == 42 {
+					w.shared.sample(
+						&format!("honest42_{}", vn),
+						json!({"workload": "solver", "variant": vn, "edge_bits": eb, "proof_size": l, "header_hex": hex(&header),
+							"header_nonce": hnonce, "nonces": s, "reference": "cycle", "verify": "Ok"}),
+					);
+				}
+			}
+			for (class, m) in near_misses(&mut p, &s, n_edges) {
+				b.check(w, wl, class, &m, &mut st);
+			}
+			// same nonces, other header / header nonce
+			let mut h2 = header.clone();
+			let k = p.usize_below(76);
+			h2[k] ^= 1 << p.below(8);
+			if let Some(b2) = Bench::new(v, eb, l, chain, &h2, hnonce, false) {
+				b2.activate(w);
+				b2.check(w, wl, "cycle_under_other_header", &s, &mut st);
+			}
+			let hn2 = Some(hnonce.unwrap_or(0).wrapping_add(1));
+			if let Some(b2) = Bench::new(v, eb, l, chain, &header, hn2, false) {
+				b2.activate(w);
+				b2.check(w, wl, "cycle_under_other_header_nonce", &s, &mut st);
+			}
+			// same nonces and header, other graph definition / size
+			for v2 in VARIANTS {
+				if v2 != v {
+					if let Some(b2) = Bench::new(v2, eb, l, chain, &header, hnonce, false) {
+						b2.activate(w);
+						b2.check(w, wl, "cycle_of_other_variant", &s, &mut st);
+					}
+				}
+			}
+			for eb2 in [eb + 1, eb - 1] {
+				if let Some(b2) = Bench::new(v, eb2, l, chain, &header, hnonce, false) {
+					b2.activate(w);
+					b2.check(w, wl, "cycle_of_other_edge_bits", &s, &mut st);
+				}
+			}
+			b.activate(w);
+		}
+		if st.evals > 50_000 {
+			st.flush(w.run());
+		}
+	}
+	st.bump(&format!("solver.{}.L{}.seeds", vn, l), seeds);
+	st.flush(w.run());
+}
+
+fn queue_solver(shared: &Arc<Shared>) {
+	// big graphs first (longest jobs)
+	let mut specs = vec![];
+	for &(l, ebs) in &[(42usize, &[16u8, 15, 14, 13, 12, 11, 10][..]), (8usize, &[16u8, 14, 12, 10, 9, 8][..])] {
+		for &eb in ebs {
+			for v in VARIANTS {
+				specs.push((v, l, eb));
+			}
+		}
+	}
+	for (v, l, eb) in specs {
+		let parts: u64 = if eb >= 15 { 4 } else if eb >= 13 { 2 } else { 1 };
+		let total = if l == 42 { shared.n(4, 40) } else { shared.n(6, 60) };
+		let target = (total + parts - 1) / parts;
+		let max_seeds = shared.n(3000, 40_000);
+		let cap = shared.tier.pick(10.0, 90.0);
+		let loose = (shared.n(6, 60) + parts - 1) / parts;
+		for part in 0..parts {
+			shared.push(
+				Some(v),
+				format!("solve {} L{} eb{} part{}", v.name(), l, eb, part),
+				Box::new(move |w| {
+					solve_job(
+						w,
+						SolveSpec {
+							variant: v,
+							l,
+							eb,
+							part,
+							target_cycles: target,
+							max_seeds,
+							time_cap_s: cap,
+							loose_seeds: loose,
+						},
+					)
+				}),
+			);
+		}
+	}
+}
+
+// =====================================================================================================
+// Workload C: variant selection (global::create_pow_context, pow::verify_size)
+// =====================================================================================================
+
+/// Header version schedule, written from the documented hard-fork heights: mainnet forks every
+/// YEAR_HEIGHT/2 = 262 080 blocks (versions 1..5), testnet forks at 185 040 / 298 080 / 552 960 / 642 240.
+fn expected_version(chain: ChainTypes, height: u64) -> u16 {
+	match chain {
+		ChainTypes::Mainnet => (1 + height / 262_080).min(5) as u16,
+		ChainTypes::Testnet => {
+			if height < 185_040 {
+				1
+			} else if height < 298_080 {
+				2
+			} else if height < 552_960 {
+				3
+			} else if height < 642_240 {
+				4
+			} else {
+				5
+			}
+		}
+		_ => (1 + height / 3).min(5) as u16,
+	}
+}
+
+/// Which graph definition judges a proof: testing chains are cuckatoo only; mainnet/testnet use cuckatoo
+/// above 29 edge bits and cuckaroo / cuckarood / cuckaroom / cuckarooz for header versions 1 / 2 / 3 / 4
+/// at 29 bits or less (nothing from version 5 on).
+fn expected_variant(chain: ChainTypes, height: u64, eb: u8) -> Option<Variant> {
+	match chain {
+		ChainTypes::Mainnet | ChainTypes::Testnet => {
+			if eb > 29 {
+				Some(Variant::Cuckatoo)
+			} else {
+				match expected_version(chain, height) {
+					1 => Some(Variant::Cuckaroo),
+					2 => Some(Variant::Cuckarood),
+					3 => Some(Variant::Cuckaroom),
+					4 => Some(Variant::Cuckarooz),
+					_ => None,
+				}
+			}
+		}
+		_ => Some(Variant::Cuckatoo),
+	}
+}
+
+fn proofsize_of(chain: ChainTypes) -> usize {
+	if chain == ChainTypes::AutomatedTesting {
+		8
+	} else {
+		42
+	}
+}
+
+fn interesting_heights(chain: ChainTypes, p: &mut Prng, extra: usize) -> Vec<u64> {
+	let mut hs: Vec<u64> = match chain {
+		ChainTypes::Mainnet => vec![
+			0, 1, 262_079, 262_080, 400_000, 524_159, 524_160, 700_000, 786_239, 786_240, 1_048_319, 1_048_320, 3_000_000,
+		],
+		ChainTypes::Testnet => vec![
+			0, 185_039, 185_040, 298_079, 298_080, 552_959, 552_960, 642_239, 642_240, 2_000_000,
+		],
+		_ => vec![0, 2, 3, 5, 6, 8, 9, 11, 12, 14, 1_000_000],
+	};
+	for _ in 0..extra {
+		hs.push(p.below(1_400_000));
+	}
+	hs
+}
+
+/// create_pow_context + set_header_nonce + verify, compared with the reference under the expected
+/// variant. `vector_of` names the origin of the nonces for the evidence.
+fn selection_case(
+	w: &Worker,
+	chain: ChainTypes,
+	height: u64,
+	eb: u8,
+	header: &[u8],
+	hnonce: Option<u32>,
+	nonces: &[u64],
+	class: &str,
+	st: &mut Stats,
+) {
+	global::set_local_chain_type(chain);
+	let l = proofsize_of(chain);
+	let exp = expected_variant(chain, height, eb);
+	let ebc = if eb > 29 { "gt29" } else { "le29" };
+	let ctx = monitor::catch(|| global::create_pow_context::<u64>(height, eb, nonces.len(), 10));
+	st.case(&format!(
+		"selection;{};v{};{};{};{}",
+		chain_name(chain),
+		expected_version(chain, height),
+		ebc,
+		class,
+		exp.map(|v| v.name()).unwrap_or("none")
+	));
+	let sig = |event: &str| {
+		format!(
+			"selection;chain={};edge_bits={};expected={};event={}",
+			chain_name(chain),
+			ebc,
+			exp.map(|v| v.name()).unwrap_or("none"),
+			event
+		)
+	};
+	let replay = json!({"kind": "selection", "chain": chain_name(chain), "height": height, "edge_bits": eb,
+		"header_hex": hex(header), "header_nonce": hnonce, "nonces": nonces, "class": class});
+	let mut ctx = match ctx {
+		Err(p) => {
+			w.run().violation(
+				&sig(&format!("panic@{}", p.location)),
+				&format!("create_pow_context panicked: {}", p.message),
+				replay,
+			);
+			return;
+		}
+		Ok(Err(_)) => {
+			// no context: every proof is rejected
+			let valid = exp
+				.map(|v| RefGraph::new(v, eb as u32, ref_keys(header, hnonce), false).analyse(nonces, l).valid)
+				.unwrap_or(false);
+			if valid {
+				w.run().violation(
+					&sig("no_context_for_valid_proof"),
+					"create_pow_context returned Err although the schedule selects a variant under which the proof is a valid cycle",
+					replay,
+				);
+			}
+			st.bump(
+				if exp.is_none() {
+					"selection.no_context_expected_and_observed"
+				} else {
+					"selection.context_refused_for_invalid_proof"
+				},
+				1,
+			);
+			return;
+		}
+		Ok(Ok(c)) => c,
+	};
+	let v = match exp {
+		None => {
+			w.run().violation(
+				&sig("context_created"),
+				"create_pow_context returned a context where the schedule has none (cuckaroo family past HF4)",
+				replay,
+			);
+			return;
+		}
+		Some(v) => v,
+	};
+	if ctx.set_header_nonce(header.to_vec(), hnonce, false).is_err() {
+		w.run().inconclusive("set_header_nonce failed");
+		return;
+	}
+	w.set_case_ctx(v, eb, l, chain, header, hnonce);
+	let g = RefGraph::new(v, eb as u32, ref_keys(header, hnonce), false);
+	let a = g.analyse(nonces, l);
+	let proof = Proof {
+		edge_bits: eb,
+		nonces: nonces.to_vec(),
+	};
+	let out = w.verify(&*ctx, &proof, class);
+	let agreed = match &out {
+		Outcome::Accept => a.valid,
+		Outcome::Reject => !a.valid,
+		Outcome::Panic(_) => false,
+	};
+	if !agreed {
+		w.run().violation(
+			&sig(&format!("ref_valid={};impl={}", a.valid, out.name())),
+			&format!(
+				"context from create_pow_context({}, {}, ..) on {} disagrees with the reference for the scheduled variant {} (class {}, ref shape {})",
+				height,
+				eb,
+				chain_name(chain),
+				v.name(),
+				class,
+				a.shape.name()
+			),
+			replay,
+		);
+	}
+	if a.valid && matches!(out, Outcome::Accept) {
+		st.bump(&format!("selection.{}.{}.vector_accepted_under_scheduled_variant", chain_name(chain), v.name()), 1);
+	} else if !a.valid && matches!(out, Outcome::Reject) {
+		st.bump(&format!("selection.{}.rejected_under_scheduled_variant", chain_name(chain)), 1);
+	}
+}
+
+fn selection_vectors_job(w: &Worker) {
+	let mut st = Stats::default();
+	let mut p = Prng::new(w.run().seed ^ 0xC0DE);
+	let header = vec![0u8; 80];
+	// reference self-check on the published vectors
+	for (v, eb, hn, keys, nonces) in KNOWN_VECTORS.iter() {
+		let g = RefGraph::new(*v, *eb as u32, keys.unwrap_or_else(|| ref_keys(&header, Some(*hn))), false);
+		if !g.analyse(&nonces[..], 42).valid {
+			w.run().inconclusive(&format!(
+				"reference self-check failed: published {}{} vector (nonce {}) is not a cycle for the reference",
+				v.name(),
+				eb,
+				hn
+			));
+		} else {
+			st.bump("reference.published_vectors_confirmed", 1);
+		}
+	}
+	let extra = w.shared.n(6, 60) as usize;
+	for chain in [ChainTypes::Mainnet, ChainTypes::Testnet, ChainTypes::UserTesting, ChainTypes::AutomatedTesting] {
+		for h in interesting_heights(chain, &mut p, extra) {
+			for (v, eb, hn, keys, nonces) in KNOWN_VECTORS.iter() {
+				if w.shared.out_of_time() || keys.is_some() {
+					continue;
+				}
+				let class = format!("published_vector_{}{}", v.name(), eb);
+				selection_case(w, chain, h, *eb, &header, Some(*hn), &nonces[..], &class, &mut st);
+			}
+			// error-message fingerprint: only cuckarood has an "edges not balanced" verdict (given for
+			// 42 ascending even nonces); seeing it where cuckarood must not be selected is a wrong selection
+			for eb in [7u8, 12, 28, 29, 30, 31, 32, 40, 62] {
+				global::set_local_chain_type(chain);
+				let l = proofsize_of(chain);
+				let exp = expected_variant(chain, h, eb);
+				let r = monitor::catch(|| {
+					let mut c = global::create_pow_context::<u64>(h, eb, l, 10).ok()?;
+					c.set_header_nonce(header.clone(), Some(7), false).ok()?;
+					let pr = Proof {
+						edge_bits: eb,
+						nonces: (0..l as u64).map(|i| 2 * i).collect(),
+					};
+					match c.verify(&pr) {
+						Err(pow::Error::Verification(m)) => Some(m),
+						Err(_) => Some("other error".to_string()),
+						Ok(()) => Some("accepted".to_string()),
+					}
+				});
+				st.case(&format!("fingerprint;{};v{};eb{}", chain_name(chain), expected_version(chain, h), eb));
+				match r {
+					Err(pn) => w.run().violation(
+						&format!("selection;chain={};event=panic@{}", chain_name(chain), pn.location),
+						&pn.message,
+						json!({"kind": "fingerprint", "chain": chain_name(chain), "height": h, "edge_bits": eb}),
+					),
+					Ok(Some(m)) => {
+						let is_d = m == "edges not balanced";
+						if m == "accepted" {
+							w.run().violation(
+								&format!("selection;chain={};event=even_nonces_proof_accepted", chain_name(chain)),
+								"a proof of the even nonces 0,2,4,.. was accepted",
+								json!({"kind": "fingerprint", "chain": chain_name(chain), "height": h, "edge_bits": eb}),
+							);
+						} else if is_d && exp != Some(Variant::Cuckarood) {
+							w.run().violation(
+								&format!(
+									"selection;chain={};edge_bits={};expected={};event=cuckarood_fingerprint",
+									chain_name(chain),
+									if eb > 29 { "gt29" } else { "le29" },
+									exp.map(|v| v.name()).unwrap_or("none")
+								),
+								"the context answers 'edges not balanced' (a cuckarood-only verdict) where the schedule selects another variant",
+								json!({"kind": "fingerprint", "chain": chain_name(chain), "height": h, "edge_bits": eb}),
+							);
+						} else if is_d {
+							st.bump("selection.fingerprint_cuckarood_where_expected", 1);
+						} else if exp == Some(Variant::Cuckarood) {
+							st.bump("selection.fingerprint_MISSING_where_cuckarood_expected(inconclusive)", 1);
+							w.run().inconclusive("cuckarood expected but its 'edges not balanced' verdict was not observed (message text changed?)");
+						} else {
+							st.bump("selection.fingerprint_other_where_expected", 1);
+						}
+					}
+					Ok(None) => {
+						if exp.is_some() && !(exp == Some(Variant::Cuckatoo) && eb >= 63) {
+							w.run().violation(
+								&format!("selection;chain={};event=no_context", chain_name(chain)),
+								"create_pow_context / set_header_nonce failed where the schedule selects a variant",
+								json!({"kind": "fingerprint", "chain": chain_name(chain), "height": h, "edge_bits": eb}),
+							);
+						} else {
+							st.bump("selection.no_context_expected_and_observed", 1);
+						}
+					}
+				}
+			}
+		}
+	}
+	// random proofs at real sizes: rejected, no panic, no hang, no big allocation (contexts are lazy)
+	let n_rand = w.shared.n(400, 6000);
+	for i in 0..n_rand {
+		if w.shared.out_of_time() {
+			break;
+		}
+		let chain = *p.pick(&[ChainTypes::Mainnet, ChainTypes::Testnet, ChainTypes::UserTesting, ChainTypes::AutomatedTesting]);
+		let l = proofsize_of(chain);
+		let eb = if i % 3 == 0 { *p.pick(&[29u8, 30, 31, 32, 33]) } else { p.range(7, 62) as u8 };
+		let h = *p.pick(&interesting_heights(chain, &mut p.clone(), 2));
+		let mask = (1u64 << eb) - 1;
+		let mut m: Vec<u64> = vec![];
+		while m.len() < l {
+			let r = p.next_u64() & mask;
+			if !m.contains(&r) {
+				m.push(r);
+			}
+		}
+		let hdr = p.bytes(80);
+		selection_case(w, chain, h, eb, &hdr, Some(p.next_u32()), &sorted(m), "random_proof_real_size", &mut st);
+	}
+	w.shared.sample(
+		"selection",
+		json!({"workload": "selection", "what": "published cuckarood29 vector (header 80 zero bytes, nonce 15) through global::create_pow_context on Mainnet",
+			"height 262079 (v1, cuckaroo)": "rejected", "height 262080 (v2, cuckarood)": "accepted", "height 524160 (v3, cuckaroom)": "rejected",
+			"note": "verdicts as required by the reference under the scheduled variant; any deviation is a violation"}),
+	);
+	st.flush(w.run());
+}
+
+/// Reference verdict for pow::verify_size.
+fn ref_verify_size(chain: ChainTypes, bh: &BlockHeader) -> (Option<Variant>, bool, Shape) {
+	let eb = bh.pow.proof.edge_bits;
+	match expected_variant(chain, bh.height, eb) {
+		None => (None, false, Shape::Other),
+		Some(v) => {
+			let g = RefGraph::new(v, eb as u32, ref_keys(&bh.pre_pow(), None), false);
+			let a = g.analyse(&bh.pow.proof.nonces, proofsize_of(chain));
+			(Some(v), a.valid, a.shape)
+		}
+	}
+}
+
+fn verify_size_case(w: &Worker, chain: ChainTypes, bh: &BlockHeader, class: &str, st: &mut Stats) -> bool {
+	global::set_local_chain_type(chain);
+	let (v, valid, shape) = ref_verify_size(chain, bh);
+	let l = proofsize_of(chain);
+	w.set_case_ctx(v.unwrap_or(Variant::Cuckatoo), bh.pow.proof.edge_bits, l, chain, &bh.pre_pow(), None);
+	let out = w.guarded(&bh.pow.proof.nonces, class, || pow::verify_size(bh).is_ok());
+	let agreed = match &out {
+		Outcome::Accept => valid,
+		Outcome::Reject => !valid,
+		Outcome::Panic(_) => false,
+	};
+	st.case(&format!(
+		"verify_size;{};v{};{};{};{};{}",
+		chain_name(chain),
+		expected_version(chain, bh.height),
+		v.map(|v| v.name()).unwrap_or("none"),
+		class,
+		shape.name(),
+		out.name()
+	));
+	if !agreed {
+		w.run().violation(
+			&format!(
+				"verify_size;chain={};expected={};proof={};event=ref_valid={};impl={}",
+				chain_name(chain),
+				v.map(|v| v.name()).unwrap_or("none"),
+				shape.name(),
+				valid,
+				out.name()
+			),
+			&format!(
+				"pow::verify_size disagrees with the reference at height {} edge_bits {} ({})",
+				bh.height, bh.pow.proof.edge_bits, class
+			),
+			json!({"kind": "verify_size", "chain": chain_name(chain), "height": bh.height, "edge_bits": bh.pow.proof.edge_bits,
+				"pre_pow_hex": hex(&bh.pre_pow()), "nonces": bh.pow.proof.nonces, "class": class}),
+		);
+	}
+	if valid && matches!(out, Outcome::Accept) {
+		st.bump(
+			&format!("verify_size.{}.{}.mined_header_accepted", chain_name(chain), v.map(|v| v.name()).unwrap_or("none")),
+			1,
+		);
+	}
+	if !valid && matches!(out, Outcome::Reject) {
+		st.bump(&format!("verify_size.{}.invalid_rejected", chain_name(chain)), 1);
+	}
+	matches!(out, Outcome::Accept)
+}
+
+fn verify_size_job(w: &Worker, chain: ChainTypes, eb: u8, heights: Vec<u64>, per_height: u64) {
+	let mut st = Stats::default();
+	let mut p = Prng::new(w.run().seed ^ fnv64(format!("vs{}{}", chain_name(chain), eb).as_bytes()));
+	global::set_local_chain_type(chain);
+	let l = proofsize_of(chain);
+	for h in heights {
+		for _ in 0..per_height {
+			if w.shared.out_of_time() {
+				break;
+			}
+			let mut bh = BlockHeader::default();
+			bh.height = h;
+			bh.version = grin_core::core::HeaderVersion(expected_version(chain, h));
+			bh.output_mmr_size = p.below(1 << 30);
+			bh.kernel_mmr_size = p.below(1 << 30);
+			bh.pow.total_difficulty = Difficulty::from_num(p.below(1 << 40));
+			bh.pow.secondary_scaling = p.next_u32();
+			bh.pow.proof.edge_bits = eb;
+			bh.pow.nonce = p.next_u64();
+			let v = match expected_variant(chain, h, eb) {
+				Some(v) => v,
+				None => {
+					// no variant: whatever the proof, it must be rejected
+					bh.pow.proof.nonces = (0..l as u64).collect();
+					verify_size_case(w, chain, &bh, "no_variant_past_hf4", &mut st);
+					continue;
+				}
+			};
+			// mine with the reference solver
+			let mut found = None;
+			for _ in 0..4000 {
+				let g = RefGraph::new(v, eb as u32, ref_keys(&bh.pre_pow(), None), true);
+				let adj = Adjacency::build(&g, JoinMode::Strict);
+				let (c, _) = find_cycles(&g, &adj, l, l, 2_000_000, 1, false, 0);
+				if let Some(c) = c.into_iter().next() {
+					found = Some(sorted(c));
+					break;
+				}
+				bh.pow.nonce = bh.pow.nonce.wrapping_add(1);
+				if w.shared.out_of_time() {
+					break;
+				}
+			}
+			let cyc = match found {
+				Some(c) => c,
+				None => {
+					st.bump("verify_size.mining_gave_up", 1);
+					continue;
+				}
+			};
+			bh.pow.proof.nonces = cyc.clone();
+			verify_size_case(w, chain, &bh, "mined_header", &mut st);
+			// near misses at header level
+			let mut b2 = bh.clone();
+			let i = p.usize_below(l);
+			b2.pow.proof.nonces[i] ^= 1;
+			b2.pow.proof.nonces.sort_unstable();
+			verify_size_case(w, chain, &b2, "one_nonce_changed", &mut st);
+			let mut b2 = bh.clone();
+			b2.pow.nonce = b2.pow.nonce.wrapping_add(1);
+			verify_size_case(w, chain, &b2, "other_header_nonce", &mut st);
+			let mut b2 = bh.clone();
+			b2.pow.secondary_scaling ^= 1;
+			verify_size_case(w, chain, &b2, "other_pre_pow_field", &mut st);
+			let mut b2 = bh.clone();
+			b2.pow.proof.nonces.swap(0, 1);
+			verify_size_case(w, chain, &b2, "swap_two", &mut st);
+			let mut b2 = bh.clone();
+			b2.pow.proof.nonces.pop();
+			verify_size_case(w, chain, &b2, "wrong_count_minus1", &mut st);
+			let mut b2 = bh.clone();
+			b2.pow.proof.nonces.push(1u64 << eb);
+			verify_size_case(w, chain, &b2, "wrong_count_plus1", &mut st);
+			let mut b2 = bh.clone();
+			b2.pow.proof.edge_bits = eb + 1;
+			verify_size_case(w, chain, &b2, "other_edge_bits", &mut st);
+			let mut b2 = bh.clone();
+			b2.pow.proof.nonces[l - 1] += 1u64 << eb;
+			verify_size_case(w, chain, &b2, "out_of_range_last", &mut st);
+			// the same proof at heights of the other header versions (pre_pow changes too; the reference recomputes)
+			for h2 in interesting_heights(chain, &mut p, 0) {
+				if expected_version(chain, h2) != expected_version(chain, h) {
+					let mut b2 = bh.clone();
+					b2.height = h2;
+					verify_size_case(w, chain, &b2, "other_height", &mut st);
+				}
+			}
+		}
+	}
+	st.flush(w.run());
+}
+
+fn queue_selection(shared: &Arc<Shared>) {
+	shared.push(None, "selection vectors".into(), Box::new(selection_vectors_job));
+	let per = shared.n(2, 12);
+	for (chain, ebs, heights) in [
+		(ChainTypes::UserTesting, vec![15u8, 16], vec![0u64, 7, 100]),
+		(ChainTypes::AutomatedTesting, vec![10u8, 12], vec![0u64, 4, 13, 1000]),
+		(ChainTypes::Mainnet, vec![11u8, 12], vec![5u64, 262_079, 262_080, 524_159, 524_160, 786_239, 786_240, 1_048_319, 1_048_320]),
+		(ChainTypes::Testnet, vec![11u8], vec![5u64, 185_039, 185_040, 298_080, 552_959, 552_960, 642_239, 642_240]),
+	] {
+		for eb in ebs {
+			for h in heights.clone() {
+				shared.push(
+					None,
+					format!("verify_size {} eb{} h{}", chain_name(chain), eb, h),
+					Box::new(move |w| verify_size_job(w, chain, eb, vec![h], per)),
+				);
+			}
+		}
+	}
+}
+/// Published 42-cycle solutions of John Tromp's solvers for the header of 80 zero bytes with the given
+/// nonce in its last four bytes (the known-answer vectors also used by the unit tests): (variant, edge_bits, header nonce, nonces).
+/// For cuckaroom / cuckarooz the published keys are not those of blake2b(80 zero bytes + nonce), and a context's keys
+/// cannot be set through the public API: these four vectors (keys given) validate the reference only.
+const KNOWN_VECTORS: [(Variant, u8, u32, Option<[u64; 4]>, [u64; 42]); 12] = [
+	(Variant::Cuckatoo, 29, 20, None, [
+		0x48a9e2, 0x9cf043, 0x155ca30, 0x18f4783, 0x248f86c, 0x2629a64, 0x5bad752,
+		0x72e3569, 0x93db760, 0x97d3b37, 0x9e05670, 0xa315d5a, 0xa3571a1, 0xa48db46,
+		0xa7796b6, 0xac43611, 0xb64912f, 0xbb6c71e, 0xbcc8be1, 0xc38a43a, 0xd4faa99,
+		0xe018a66, 0xe37e49c, 0xfa975fa, 0x11786035, 0x1243b60a, 0x12892da0, 0x141b5453,
+		0x1483c3a0, 0x1505525e, 0x1607352c, 0x16181fe3, 0x17e3a1da, 0x180b651e, 0x1899d678,
+		0x1931b0bb, 0x19606448, 0x1b041655, 0x1b2c20ad, 0x1bd7a83c, 0x1c05d5b0, 0x1c0b9caa,
+	]),
+	(Variant::Cuckatoo, 31, 99, None, [
+		0x1128e07, 0xc181131, 0x110fad36, 0x1135ddee, 0x1669c7d3, 0x1931e6ea, 0x1c0005f3,
+		0x1dd6ecca, 0x1e29ce7e, 0x209736fc, 0x2692bf1a, 0x27b85aa9, 0x29bb7693, 0x2dc2a047,
+		0x2e28650a, 0x2f381195, 0x350eb3f9, 0x3beed728, 0x3e861cbc, 0x41448cc1, 0x41f08f6d,
+		0x42fbc48a, 0x4383ab31, 0x4389c61f, 0x4540a5ce, 0x49a17405, 0x50372ded, 0x512f0db0,
+		0x588b6288, 0x5a36aa46, 0x5c29e1fe, 0x6118ab16, 0x634705b5, 0x6633d190, 0x6683782f,
+		0x6728b6e1, 0x67adfb45, 0x68ae2306, 0x6d60f5e1, 0x78af3c4f, 0x7dde51ab, 0x7faced21,
+	]),
+	(Variant::Cuckatoo, 32, 17, None, [
+		0x6da0bbf, 0xb175276, 0xf978803, 0x187bea71, 0x2074a1a6, 0x22270923, 0x2c70b560,
+		0x411d193f, 0x417c55d4, 0x4ebbda62, 0x5238584a, 0x545efac9, 0x569e98e1, 0x57040b66,
+		0x5e16153e, 0x5e749d2e, 0x60b771c2, 0x68e63420, 0x74a2825e, 0x755790ac, 0x7d5e280f,
+		0x7fe4d148, 0x934b32c8, 0x94a0c441, 0x9643fb25, 0x9718e41d, 0x982e6b8b, 0x9c47d21c,
+		0xa1f64135, 0xa90e209c, 0xabb868cb, 0xafef989e, 0xb0fc021e, 0xb20a7b56, 0xb5e59931,
+		0xb63e46b9, 0xb8823ed5, 0xd11e966c, 0xd95e515d, 0xe0245efe, 0xf3edc79a, 0xfb8a29ce,
+	]),
+	(Variant::Cuckatoo, 33, 79, None, [
+		0x7aaf51f, 0x1434ebf3, 0x25bcee6e, 0x2fbddf0b, 0x322a87b6, 0x414f6a57, 0x701a84af,
+		0x7c432040, 0x822b8ee0, 0x83c9fed3, 0x89af26b2, 0xa5bc5d69, 0xbe924630, 0xd3146f50,
+		0xd4e0f240, 0xe10e5bdc, 0x113400ccc, 0x114a917b2, 0x118482498, 0x11deca0f4, 0x1241c7ff0,
+		0x1245f8886, 0x12a6517e3, 0x12c1a0edd, 0x142d988ee, 0x14637a89b, 0x15399e735, 0x1699c1cf9,
+		0x16e91ddd4, 0x17414f603, 0x18c07384c, 0x1993cdd97, 0x19d37ce5b, 0x1a43455c5, 0x1aa312c2f,
+		0x1b20fe128, 0x1b7610376, 0x1bce4d125, 0x1c4834307, 0x1c7a2e5b2, 0x1da840832, 0x1e4e3da0c,
+	]),
+	(Variant::Cuckaroo, 19, 71, None, [
+		0x45e9, 0x6a59, 0xf1ad, 0x10ef7, 0x129e8, 0x13e58, 0x17936,
+		0x19f7f, 0x208df, 0x23704, 0x24564, 0x27e64, 0x2b828, 0x2bb41,
+		0x2ffc0, 0x304c5, 0x31f2a, 0x347de, 0x39686, 0x3ab6c, 0x429ad,
+		0x45254, 0x49200, 0x4f8f8, 0x5697f, 0x57ad1, 0x5dd47, 0x607f8,
+		0x66199, 0x686c7, 0x6d5f3, 0x6da7a, 0x6dbdf, 0x6f6bf, 0x6ffbb,
+		0x7580e, 0x78594, 0x785ac, 0x78b1d, 0x7b80d, 0x7c11c, 0x7da35,
+	]),
+	(Variant::Cuckaroo, 19, 143, None, [
+		0x2b1e, 0x67d3, 0xb041, 0xb289, 0xc6c3, 0xd31e, 0xd75c,
+		0x111d7, 0x145aa, 0x1712e, 0x1a3af, 0x1ecc5, 0x206b1, 0x2a55c,
+		0x2a9cd, 0x2b67e, 0x321d8, 0x35dde, 0x3721e, 0x37ac0, 0x39edb,
+		0x3b80b, 0x3fc79, 0x4148b, 0x42a48, 0x44395, 0x4bbc9, 0x4f775,
+		0x515c5, 0x56f97, 0x5aa10, 0x5bc1b, 0x5c56d, 0x5d552, 0x60a2e,
+		0x66646, 0x6c3aa, 0x70709, 0x71d13, 0x762a3, 0x79d88, 0x7e3ae,
+	]),
+	(Variant::Cuckarood, 19, 64, None, [
+		0xa00, 0x3ffb, 0xa474, 0xdc27, 0x182e6, 0x242cc, 0x24de4,
+		0x270a2, 0x28356, 0x2951f, 0x2a6ae, 0x2c889, 0x355c7, 0x3863b,
+		0x3bd7e, 0x3cdbc, 0x3ff95, 0x430b6, 0x4ba1a, 0x4bd7e, 0x4c59f,
+		0x4f76d, 0x52064, 0x5378c, 0x540a3, 0x5af6b, 0x5b041, 0x5e9d3,
+		0x64ec7, 0x6564b, 0x66763, 0x66899, 0x66e80, 0x68e4e, 0x69133,
+		0x6b20a, 0x6c2d7, 0x6fd3b, 0x79a8a, 0x79e29, 0x7ae52, 0x7defe,
+	]),
+	(Variant::Cuckarood, 29, 15, None, [
+		0x1a9629, 0x1fb257, 0x5dc22a, 0xf3d0b0, 0x200c474, 0x24bd68f, 0x48ad104,
+		0x4a17170, 0x4ca9a41, 0x55f983f, 0x6076c91, 0x6256ffc, 0x63b60a1, 0x7fd5b16,
+		0x985bff8, 0xaae71f3, 0xb71f7b4, 0xb989679, 0xc09b7b8, 0xd7601da, 0xd7ab1b6,
+		0xef1c727, 0xf1e702b, 0xfd6d961, 0xfdf0007, 0x10248134, 0x114657f6, 0x11f52612,
+		0x12887251, 0x13596b4b, 0x15e8d831, 0x16b4c9e5, 0x17097420, 0x1718afca, 0x187fc40c,
+		0x19359788, 0x1b41d3f1, 0x1bea25a7, 0x1d28df0f, 0x1ea6c4a0, 0x1f9bf79f, 0x1fa005c6,
+	]),
+	(Variant::Cuckaroom, 19, 64, Some([0xdb7896f799c76dab, 0x352e8bf25df7a723, 0xf0aa29cbb1150ea6, 0x3206c2759f41cbd5]), [
+		0x413c, 0x5121, 0x546e, 0x1293a, 0x1dd27, 0x1e13e, 0x1e1d2,
+		0x22870, 0x24642, 0x24833, 0x29190, 0x2a732, 0x2ccf6, 0x302cf,
+		0x32d9a, 0x33700, 0x33a20, 0x351d9, 0x3554b, 0x35a70, 0x376c1,
+		0x398c6, 0x3f404, 0x3ff0c, 0x48b26, 0x49a03, 0x4c555, 0x4dcda,
+		0x4dfcd, 0x4fbb6, 0x50275, 0x584a8, 0x5da0d, 0x5dbf1, 0x6038f,
+		0x66540, 0x72bbd, 0x77323, 0x77424, 0x77a14, 0x77dc9, 0x7d9dc,
+	]),
+	(Variant::Cuckaroom, 29, 15, Some([0xe4b4a751f2eac47d, 0x3115d47edfb69267, 0x87de84146d9d609e, 0x7deb20eab6d976a1]), [
+		0x4acd28, 0x29ccf71, 0x2a5572b, 0x2f31c2c, 0x2f60c37, 0x317fe1d, 0x32f6d4c,
+		0x3f51227, 0x45ee1dc, 0x535eeb8, 0x5e135d5, 0x6184e3d, 0x6b1b8e0, 0x6f857a9,
+		0x8916a0f, 0x9beb5f8, 0xa3c8dc9, 0xa886d94, 0xaab6a57, 0xd6df8f8, 0xe4d630f,
+		0xe6ae422, 0xea2d658, 0xf7f369b, 0x10c465d8, 0x1130471e, 0x12049efb, 0x12f43bc5,
+		0x15b493a6, 0x16899354, 0x1915dfca, 0x195c3dac, 0x19b09ab6, 0x1a1a8ed7, 0x1bba748f,
+		0x1bdbf777, 0x1c806542, 0x1d201b53, 0x1d9e6af7, 0x1e99885e, 0x1f255834, 0x1f9c383b,
+	]),
+	(Variant::Cuckarooz, 19, 71, Some([0xd129f63fba4d9a85, 0x457dcb3666c5e09c, 0x045247a2e2ee75f7, 0x1a0f2e1bcb9d93ff]), [
+		0x33b6, 0x487b, 0x88b7, 0x10bf6, 0x15144, 0x17cb7, 0x22621,
+		0x2358e, 0x23775, 0x24fb3, 0x26b8a, 0x2876c, 0x2973e, 0x2f4ba,
+		0x30a62, 0x3a36b, 0x3ba5d, 0x3be67, 0x3ec56, 0x43141, 0x4b9c5,
+		0x4fa06, 0x51a5c, 0x523e5, 0x53d08, 0x57d34, 0x5c2de, 0x60bba,
+		0x62509, 0x64d69, 0x6803f, 0x68af4, 0x6bd52, 0x6f041, 0x6f900,
+		0x70051, 0x7097d, 0x735e8, 0x742c2, 0x79ae5, 0x7f64d, 0x7fd49,
+	]),
+	(Variant::Cuckarooz, 29, 15, Some([0x34bb4c75c929a2f5, 0x21df13263aa81235, 0x37d00939eae4be06, 0x473251cbf6941553]), [
+		0x49733a, 0x1d49107, 0x253d2ca, 0x5ad5e59, 0x5b671bd, 0x5dcae1c, 0x5f9a589,
+		0x65e9afc, 0x6a59a45, 0x7d9c6d3, 0x7df96e4, 0x8b26174, 0xa17b430, 0xa1c8c0d,
+		0xa8a0327, 0xabd7402, 0xacb7c77, 0xb67524f, 0xc1c15a6, 0xc7e2c26, 0xc7f5d8d,
+		0xcae478a, 0xdea9229, 0xe1ab49e, 0xf57c7db, 0xfb4e8c5, 0xff314aa, 0x110ccc12,
+		0x143e546f, 0x17007af8, 0x17140ea2, 0x173d7c5d, 0x175cd13f, 0x178b8880, 0x1801edc5,
+		0x18c8f56b, 0x18c8fe6d, 0x19f1a31a, 0x1bb028d1, 0x1caaa65a, 0x1cf29bc2, 0x1dbde27d,
+	]),
+];
+
+// =====================================================================================================
+// Workload D: difficulty is a deterministic function of the packed nonces
+// =====================================================================================================
+
+/// Own graph weight: 2^(1 + edge_bits - base) * edge_bits, where for 31-bit graphs the factor edge_bits
+/// decays by one per week (10 080 blocks) from one year (524 160 blocks) on, down to zero.
+fn ref_graph_weight(chain: ChainTypes, height: u64, eb: u8) -> u64 {
+	let base: u32 = match chain {
+		ChainTypes::AutomatedTesting => 10,
+		ChainTypes::UserTesting => 15,
+		_ => 24,
+	};
+	let mut x = eb as u64;
+	if eb == 31 && height >= 524_160 {
+		x = x.saturating_sub(1 + (height - 524_160) / 10_080);
+	}
+	(2u64 << (eb as u32 - base)) * x
+}
+
+fn difficulty_job(w: &Worker, chain: ChainTypes, part: u64, n: u64) {
+	let mut st = Stats::default();
+	let mut p = Prng::new(w.run().seed ^ fnv64(format!("diff{}{}", chain_name(chain), part).as_bytes()));
+	global::set_local_chain_type(chain);
+	let l = proofsize_of(chain);
+	let base = match chain {
+		ChainTypes::AutomatedTesting => 10u8,
+		ChainTypes::UserTesting => 15,
+		_ => 24,
+	};
+	for k in 0..n {
+		if k % 256 == 0 && w.shared.out_of_time() {
+			break;
+		}
+		let eb: u8 = match p.below(6) {
+			0 => 29,
+			1 => 31,
+			2 => *p.pick(&[base, 32, 33, 62, 63]),
+			_ => p.range(base as u64, 63) as u8,
+		};
+		let mask = if eb == 64 { u64::MAX } else { (1u64 << eb) - 1 };
+		let nonces: Vec<u64> = match p.below(8) {
+			0 => vec![0; l],
+			1 => vec![mask; l],
+			2 => (0..l as u64).map(|i| i & mask).collect(),
+			_ => sorted((0..l).map(|_| p.next_u64() & mask).collect()),
+		};
+		let height = match p.below(6) {
+			0 => 0,
+			1 => 524_159 + p.below(3),
+			2 => 524_160 + 10_080 * p.below(33) + p.below(3) - 1,
+			3 => p.below(2_000_000),
+			4 => p.interesting_u64() >> 1,
+			_ => 524_160 + p.below(400_000),
+		};
+		let scaling = match p.below(4) {
+			0 => p.next_u32(),
+			1 => *p.pick(&[0u32, 1, 13, u32::MAX]),
+			_ => p.below(4096) as u32,
+		};
+		let pw = ProofOfWork {
+			total_difficulty: Difficulty::from_num(p.next_u64() >> 8),
+			secondary_scaling: scaling,
+			nonce: p.next_u64(),
+			proof: Proof {
+				edge_bits: eb,
+				nonces: nonces.clone(),
+			},
+		};
+		let r = monitor::catch(|| {
+			(
+				pw.to_difficulty(height).to_num(),
+				pw.to_difficulty(height).to_num(),
+				pw.to_unscaled_difficulty().to_num(),
+				pw.to_unscaled_difficulty().to_num(),
+			)
+		});
+		let kind = if eb == 29 { "secondary" } else { "primary" };
+		st.case(&format!(
+			"difficulty;{};{};eb{};weekdecay{}",
+			chain_name(chain),
+			kind,
+			eb,
+			if eb == 31 && height >= 524_160 { ((height - 524_160) / 10_080).min(40) } else { 99 }
+		));
+		let replay = json!({"kind": "difficulty", "chain": chain_name(chain), "edge_bits": eb, "height": height,
+			"secondary_scaling": scaling, "nonces": nonces});
+		match r {
+			Err(pn) => w.run().violation(
+				&format!("difficulty;kind={};event=panic@{}", kind, pn.location),
+				&pn.message,
+				replay,
+			),
+			Ok((d1, d2, u1, u2)) => {
+				let scale = if eb == 29 { scaling as u64 } else { ref_graph_weight(chain, height, eb) };
+				let exp = ref_difficulty(&nonces, eb as u32, scale);
+				let expu = ref_difficulty(&nonces, eb as u32, 1);
+				if d1 != d2 || u1 != u2 {
+					w.run().violation(
+						&format!("difficulty;kind={};event=nondeterministic", kind),
+						&format!("two calls returned {} / {} (unscaled {} / {})", d1, d2, u1, u2),
+						replay,
+					);
+				} else if d1 != exp {
+					w.run().violation(
+						&format!("difficulty;kind={};event=mismatch", kind),
+						&format!("to_difficulty({}) = {}, reference formula over independently packed nonces = {} (scale {})", height, d1, exp, scale),
+						replay,
+					);
+				} else if u1 != expu {
+					w.run().violation(
+						"difficulty;kind=unscaled;event=mismatch",
+						&format!("to_unscaled_difficulty() = {}, reference = {}", u1, expu),
+						replay,
+					);
+				} else {
+					st.bump(&format!("difficulty.{}.agree", kind), 1);
+					if k == 3 {
+						w.shared.sample(
+							"difficulty",
+							json!({"workload": "difficulty", "chain": chain_name(chain), "edge_bits": eb, "height": height, "secondary_scaling": scaling,
+								"nonces": nonces, "packed_hex": hex(&ref_pack(&nonces, eb as u32)), "hash_u64_be": ref_unscaled_hash(&nonces, eb as u32),
+								"scale": scale, "to_difficulty": d1, "to_unscaled_difficulty": u1, "reference": exp}),
+						);
+					}
+				}
+			}
+		}
+	}
+	st.flush(w.run());
+}
+
+fn queue_difficulty(shared: &Arc<Shared>) {
+	let n = shared.n(6000, 120_000);
+	for chain in [ChainTypes::Mainnet, ChainTypes::UserTesting, ChainTypes::AutomatedTesting, ChainTypes::Testnet] {
+		for part in 0..2 {
+			shared.push(
+				None,
+				format!("difficulty {} {}", chain_name(chain), part),
+				Box::new(move |w| difficulty_job(w, chain, part, n)),
+			);
+		}
+	}
+}
+
+// =====================================================================================================
+// Workload E: Proof serialisation
+// =====================================================================================================
+
+fn ref_unpack(bytes: &[u8], width: u32, count: usize) -> Vec<u64> {
+	(0..count)
+		.map(|i| {
+			let mut v = 0u64;
+			for b in 0..width as usize {
+				let pos = i * width as usize + b;
+				if (bytes[pos / 8] >> (pos % 8)) & 1 == 1 {
+					v |= 1 << b;
+				}
+			}
+			v
+		})
+		.collect()
+}
+
+fn ser_job(w: &Worker, chain: ChainTypes, n_per_eb: u64) {
+	let mut st = Stats::default();
+	let run = w.run();
+	let mut p = Prng::new(run.seed ^ fnv64(format!("ser{}", chain_name(chain)).as_bytes()));
+	global::set_local_chain_type(chain);
+	let l = proofsize_of(chain);
+	let cn = chain_name(chain);
+	let versions = [1u32, 2, 3];
+	let read = |bytes: &[u8], ver: u32| -> Result<Result<Proof, ser::Error>, monitor::PanicReport> {
+		let b = bytes.to_vec();
+		monitor::catch(move || ser::deserialize::<Proof, _>(&mut &b[..], ProtocolVersion(ver), DeserializationMode::default()))
+	};
+	for eb in 1u8..=63 {
+		let bytes_len = (eb as usize * l + 7) / 8;
+		let readable = bytes_len >= 8;
+		let pad = bytes_len * 8 - eb as usize * l;
+		let mask = (1u64 << eb) - 1;
+		for k in 0..n_per_eb {
+			if w.shared.out_of_time() {
+				break;
+			}
+			let nonces: Vec<u64> = match k {
+				0 => vec![0; l],
+				1 => vec![mask; l],
+				2 => (0..l).map(|i| if i % 2 == 0 { mask } else { 0 }).collect(),
+				3 => (0..l).map(|i| if i == l - 1 { mask } else { 0 }).collect(),
+				4 => (0..l).map(|i| if i == 0 { 1 } else { 0 }).collect(),
+				_ => (0..l).map(|_| p.next_u64() & mask).collect(),
+			};
+			let mut enc = vec![eb];
+			enc.extend_from_slice(&ref_pack(&nonces, eb as u32));
+			let proof = Proof {
+				edge_bits: eb,
+				nonces: nonces.clone(),
+			};
+			let ver = versions[(k % 3) as usize];
+			let replay = json!({"kind": "ser", "chain": cn, "edge_bits": eb, "nonces": nonces, "protocol_version": ver});
+			st.case(&format!("ser;{};eb{};pad{};readable{};pattern{}", cn, eb, pad, readable, k.min(5)));
+			// writer produces exactly the independent encoding
+			let pr = proof.clone();
+			match monitor::catch(move || ser::ser_vec(&pr, ProtocolVersion(ver))) {
+				Err(pn) => run.violation(&format!("ser;class=write;event=panic@{}", pn.location), &pn.message, replay.clone()),
+				Ok(Err(e)) => run.violation("ser;class=write;event=error", &format!("{:?}", e), replay.clone()),
+				Ok(Ok(b)) => {
+					if b != enc {
+						run.violation(
+							"ser;class=write;event=bytes_differ_from_reference_packing",
+							&format!("writer {} vs reference {}", hex(&b), hex(&enc)),
+							replay.clone(),
+						);
+					} else {
+						st.bump("ser.writer_bytes_equal_reference", 1);
+					}
+				}
+			}
+			// reader
+			match read(&enc, ver) {
+				Err(pn) => run.violation(&format!("ser;class=read;event=panic@{}", pn.location), &pn.message, replay.clone()),
+				Ok(Ok(q)) => {
+					if !readable {
+						run.violation("ser;class=read;event=short_encoding_accepted", "an encoding below 8 bytes was accepted", replay.clone());
+					} else if q.edge_bits != eb || q.nonces != nonces {
+						run.violation(
+							"ser;class=roundtrip;event=not_bit_exact",
+							&format!("read back edge_bits {} nonces {:?}", q.edge_bits, q.nonces),
+							replay.clone(),
+						);
+					} else {
+						st.bump("ser.roundtrip_exact", 1);
+					}
+				}
+				Ok(Err(_)) => {
+					if readable {
+						run.violation("ser;class=read;event=canonical_encoding_refused", "a canonical encoding was refused", replay.clone());
+					} else {
+						st.bump("ser.short_encoding_refused", 1);
+					}
+				}
+			}
+			if !readable {
+				continue;
+			}
+			// non-zero padding must be refused
+			if pad > 0 && k < 6 {
+				for pat in 1u8..(1 << pad) {
+					let mut bad = enc.clone();
+					let last = bad.len() - 1;
+					bad[last] |= pat << (8 - pad);
+					st.case(&format!("ser_padding;{};eb{};pad{};pat{}", cn, eb, pad, pat));
+					match read(&bad, ver) {
+						Err(pn) => run.violation(&format!("ser;class=padding;event=panic@{}", pn.location), &pn.message, replay.clone()),
+						Ok(Ok(_)) => run.violation(
+							"ser;class=padding;event=nonzero_padding_accepted",
+							&format!("encoding {} with padding bits {:#b} was accepted", hex(&bad), pat),
+							json!({"kind": "ser_padding", "chain": cn, "edge_bits": eb, "bytes_hex": hex(&bad)}),
+						),
+						Ok(Err(_)) => st.bump("ser.nonzero_padding_refused", 1),
+					}
+				}
+				if k == 5 && eb == 31 {
+					let mut bad = enc.clone();
+					let last = bad.len() - 1;
+					bad[last] |= 0x80;
+					w.shared.sample(
+						"ser_padding",
+						json!({"workload": "serialisation", "chain": cn, "edge_bits": eb, "padding_bits": pad, "canonical_hex": hex(&enc),
+							"canonical": "read back bit-exactly", "top padding bit set (last byte |= 0x80)": "refused"}),
+					);
+				}
+			}
+			// truncation
+			if k < 6 {
+				let cut = enc[..enc.len() - 1 - p.usize_below(enc.len() - 1)].to_vec();
+				st.case(&format!("ser_truncated;{};eb{}", cn, eb));
+				match read(&cut, ver) {
+					Err(pn) => run.violation(&format!("ser;class=truncated;event=panic@{}", pn.location), &pn.message, replay.clone()),
+					Ok(Ok(_)) => run.violation("ser;class=truncated;event=accepted", "a truncated encoding was accepted", replay.clone()),
+					Ok(Err(_)) => st.bump("ser.truncated_refused", 1),
+				}
+			}
+			// arbitrary accepted bytes are canonical: read -> write gives the same bytes
+			let mut rnd = p.bytes(bytes_len);
+			if pad > 0 {
+				let last = rnd.len() - 1;
+				rnd[last] &= 0xff >> pad;
+			}
+			let mut renc = vec![eb];
+			renc.extend_from_slice(&rnd);
+			st.case(&format!("ser_random_bytes;{};eb{}", cn, eb));
+			match read(&renc, ver) {
+				Err(pn) => run.violation(&format!("ser;class=read;event=panic@{}", pn.location), &pn.message, replay.clone()),
+				Ok(Err(_)) => run.violation(
+					"ser;class=read;event=canonical_encoding_refused",
+					"random bytes with zero padding refused",
+					json!({"kind": "ser_bytes", "chain": cn, "bytes_hex": hex(&renc)}),
+				),
+				Ok(Ok(q)) => {
+					let expn = ref_unpack(&rnd, eb as u32, l);
+					let back = monitor::catch(|| ser::ser_vec(&q, ProtocolVersion(ver)));
+					if q.nonces != expn || q.edge_bits != eb {
+						run.violation(
+							"ser;class=read;event=nonces_differ_from_reference_unpacking",
+							&format!("{:?} vs {:?}", q.nonces, expn),
+							json!({"kind": "ser_bytes", "chain": cn, "bytes_hex": hex(&renc)}),
+						);
+					} else if !matches!(&back, Ok(Ok(b)) if *b == renc) {
+						run.violation(
+							"ser;class=roundtrip;event=reserialised_bytes_differ",
+							"read then write does not reproduce the bytes",
+							json!({"kind": "ser_bytes", "chain": cn, "bytes_hex": hex(&renc)}),
+						);
+					} else {
+						st.bump("ser.bytes_roundtrip_exact", 1);
+					}
+				}
+			}
+		}
+	}
+	// edge_bits outside 1..=63
+	for eb in [0u8, 64, 65, 100, 127, 128, 200, 254, 255] {
+		for ver in versions {
+			let mut enc = vec![eb];
+			enc.extend_from_slice(&p.bytes(600));
+			st.case(&format!("ser_bad_edge_bits;{};eb{}", cn, eb));
+			match read(&enc, ver) {
+				Err(pn) => run.violation(
+					&format!("ser;class=bad_edge_bits;event=panic@{}", pn.location),
+					&pn.message,
+					json!({"kind": "ser_bytes", "chain": cn, "bytes_hex": hex(&enc)}),
+				),
+				Ok(Ok(_)) => run.violation(
+					"ser;class=bad_edge_bits;event=accepted",
+					&format!("edge_bits {} accepted", eb),
+					json!({"kind": "ser_bytes", "chain": cn, "bytes_hex": hex(&enc)}),
+				),
+				Ok(Err(_)) => st.bump("ser.bad_edge_bits_refused", 1),
+			}
+		}
+	}
+	st.flush(run);
+}
+
+fn queue_ser(shared: &Arc<Shared>) {
+	let n = shared.n(24, 400);
+	for chain in [ChainTypes::Mainnet, ChainTypes::AutomatedTesting, ChainTypes::UserTesting] {
+		shared.push(None, format!("ser {}", chain_name(chain)), Box::new(move |w| ser_job(w, chain, n)));
+	}
 }
